@@ -371,9 +371,33 @@ def r5_callbacks_under_iteration(ctx, F):
     ctx.floor("C12.R5", "builtins that iterate an argument and call back", n, 5, inventory=True)
 
 
+def r7_adapter_releases_on_exhaustion(ctx, F):
+    """StarlarkIterator (the adapter every native builtin iterates through) is the lock holder: inside `next` it gives
+    the lock back (iter_stop) only when the container reported exhaustion (iter_next returned None). Releasing it when
+    an element was returned - e.g. eagerly after the last one - unlocks the container while the consumer is still
+    working on that element (a key= callback can then mutate it)."""
+    from kern import guarded_by_edges
+    f = F.one(r"<values::iter::StarlarkIterator<'v> as std::iter::Iterator>::next$")
+    nx = [c for c in f.calls if c.bb not in f.cleanup and re.search(r"::iter_next$", c.name)]
+    stops = [c for c in calls_to(F, f, r"(AValueDyn::<'v>|StarlarkValue<'v>>)::iter_stop$|::iter_stop$")
+             if c.bb not in f.cleanup]
+    if len(nx) != 1 or not stops:
+        ctx.bad("C12.R7", "adapter-next:anchor", "anchor-missing: iter_next / iter_stop in StarlarkIterator::next", fn=f)
+        return
+    none_edges = outcome_edges(F, f, nx[0], "None")
+    for s_ in stops:
+        ctx.check(bool(none_edges) and any(f.edge_dominates(e, s_.bb) for e in none_edges), "C12.R7",
+                  "adapter-releases-only-on-exhaustion:" + s_.name.split("::")[-1],
+                  "the release is reached only through the `None` outcome of iter_next",
+                  "StarlarkIterator::next can call iter_stop (`%s`) on a path where iter_next returned an element: the "
+                  "container is unlocked while the builtin that consumes it is still processing that element"
+                  % short_fn(s_.name), fn=f, line=s_.line)
+
+
 def run(ctx):
     F = ctx.facts("core")
     r5_callbacks_under_iteration(ctx, F)
+    r7_adapter_releases_on_exhaustion(ctx, F)
     r6_views(ctx, F)
     r1_exits(ctx, F)
     r2_error_exit(ctx, F)
